@@ -371,7 +371,7 @@ def rule_booleanity(repo, rule):
     init = ci.methods["__init__"]
     lc = init.params[1]
     flag = init.params[2] if len(init.params) > 2 else None
-    emits = [c for c in ast.walk(init.node) if isinstance(c, ast.Call) and norm(c.func).endswith("add_constraint") and len(c.args) >= 3]
+    emits = [c for c in ast.walk(init.node) if isinstance(c, ast.Call) and norm(c.func).split(".")[-1] in ("add_constraint", "add_constraint_unsafe") and not norm(c.func).startswith("backend.") and len(c.args) >= 3]
     where = init.loc()
     if not emits:
         rule.violation(where, init.fq, "no add_constraint", "declaring a Boolean emits no booleanity constraint", "init/none")
